@@ -402,7 +402,9 @@ def dict2obj_constructs(prop="C16", replay=None):
     rets = [n for n in ast.walk(fn) if isinstance(n, ast.Return) and n.value is not None]
     if not built or not rets:
         return [OR(id=oid, status=UNKNOWN, kind="S", target="ford.external_project.dict2obj", detail=f"constructor assignment / return not found ({sorted(built)}, {len(rets)} returns)")]
-    bad = [ast.unparse(r) for r in rets if not (isinstance(r.value, ast.Name) and r.value.id in built)]
+    # (a description that is a plain string - an unresolved name - is passed through unchanged)
+    passthrough = {a.arg for a in fn.args.args}
+    bad = [ast.unparse(r) for r in rets if not (isinstance(r.value, ast.Name) and (r.value.id in built or r.value.id in passthrough))]
     r = OR(id=oid, status=REFUTED if bad else PROVED, kind="S", role="post", backend="ast", target="ford.external_project.dict2obj",
            desc=f"every return of dict2obj hands out the object it constructed ({', '.join(sorted(built))})")
     if bad:
